@@ -38,6 +38,8 @@ fn msg_pool() -> Vec<(String, Vec<u8>)> {
     // non-minimal length forms of the minimal message
     let m = Msg { id: 6, op: Op::AddResp(Res::new(0, "", "")), controls: None };
     out.push(("nonmin".into(), ber::encode_forms(&m.to_tlv(), &mut |k| if k % 2 == 0 { ber::LenForm::Long(2) } else { ber::LenForm::Long(1) })));
+    // ... and with length fields of 8, 10 and 16 octets
+    out.push(("nonmin10".into(), ber::encode_forms(&m.to_tlv(), &mut |k| [ber::LenForm::Long(10), ber::LenForm::Long(8), ber::LenForm::Long(16)][k % 3])));
     out
 }
 
@@ -232,6 +234,23 @@ pub fn run(tier: Tier) -> i32 {
         bigs.push(mk_seq(&[small, m, entry]));
         bigs.push(mk_seq(&[m, m]));
     }
+    // a wide message: one attribute with 70 values plus 70 attributes
+    let wide = (
+        "wide70".to_string(),
+        Msg {
+            id: 12,
+            op: Op::SearchEntry {
+                dn: b"cn=group".to_vec(),
+                attrs: std::iter::once((b"member".to_vec(), (0..70).map(|k| format!("uid=u{}", k).into_bytes()).collect::<Vec<_>>()))
+                    .chain((0..70).map(|k| (format!("a{}", k).into_bytes(), vec![b"v".to_vec()])))
+                    .collect(),
+            },
+            controls: None,
+        }
+        .encode(),
+    );
+    bigs.push(mk_seq(&[small, &wide, entry]));
+    bigs.push(mk_seq(&[&wide]));
     for n in [5usize, 9, 17, 33, 65, 129, 300] {
         let run: Vec<&(String, Vec<u8>)> = (0..n).map(|k| &pool[k % pool.len()]).collect();
         bigs.push(mk_seq(&run));
@@ -295,6 +314,25 @@ pub fn run(tier: Tier) -> i32 {
     };
     scns.push(mk("C06/driver/bind+search[E]/one|all", vec![ItemKind::E], vec![NetStep::One, NetStep::All]));
     scns.push(mk("C06/driver/bind+search[R]/one|frame", vec![ItemKind::R], vec![NetStep::One, NetStep::Frame]));
+    {
+        // the only search in flight is abandoned from another handle while one of its frames has
+        // arrived in part; the rest of that frame must not be taken for the start of a new one
+        let mut s = Scenario::new("C06/driver/abandon-with-half-a-frame-buffered");
+        s.clients = vec![
+            ClientSpec { script: vec![Call::Start { marker: "s".into(), chain: Chain::Direct, timeout: None, ctrl: false, opts: false, own_paging: false }, Call::Next], free: 0 },
+            ClientSpec {
+                script: vec![Call::Abandon(AbTarget::Marker("s".into())), Call::Single { kind: OpKind::Bind, marker: "after".into(), timeout: None, ctrl: false }],
+                free: 0,
+            },
+        ];
+        s.plans.insert("s".into(), Plan { items: vec![ItemKind::E, ItemKind::E], ..Default::default() });
+        s.byte_mode = true;
+        s.net_steps = vec![NetStep::One, NetStep::All];
+        s.answer_after_abandon = true;
+        s.select_starts = vec![3];
+        s.oracles = Oracles { route: true, ..Default::default() };
+        scns.push(s);
+    }
     if tier == Tier::Thorough {
         scns.push(mk("C06/driver/bind+search[E,R]/one|frame", vec![ItemKind::E, ItemKind::R], vec![NetStep::One, NetStep::Frame]));
         scns.push(mk("C06/driver/bind+search[E,I,E]/one|frame|all", vec![ItemKind::E, ItemKind::I, ItemKind::E], vec![NetStep::One, NetStep::Frame, NetStep::All]));
